@@ -89,7 +89,18 @@ def impl_ctor(grid, direction, nsampling, xi0=0.5, p=40.0, eps=1e-4):
 def impl_run(grid, direction, nsampling, xi0, p, eps, x, seeds):
     """returns dict(direction, y, smax, q, shift, backshift, dx=[...], seed_mutated)"""
     m, s, d = impl_ctor(grid, direction, nsampling, xi0, p, eps)
-    s.state = np.array(x, dtype=np.float64)
+    xa = np.array(x, dtype=np.float64)
+    if xa.size and (int(xa.tobytes()[-2]) ^ xa.size) & 1:
+        # every other case: the SAME instance has been evaluated (and differentiated) before on another field, differing in
+        # the base layer as well: work arrays kept between evaluations must not leak into this one
+        with warnings.catch_warnings():
+            warnings.simplefilter("ignore")
+            s.state = np.clip(1.0 - xa[::-1], 0.0, 1.0)
+            m.response()
+            m.sig_out[0].sensitivity = np.ones_like(xa)
+            m.sensitivity()
+            m.reset()
+    s.state = xa
     with warnings.catch_warnings():
         warnings.simplefilter("ignore")
         m.response()
